@@ -6,6 +6,7 @@ import asyncio
 import collections
 import contextvars
 import datetime as dt
+import functools
 import sys
 import types
 
@@ -16,6 +17,7 @@ from taskiq.abc.schedule_source import ScheduleSource
 from taskiq.schedule_sources.label_based import LabelScheduleSource
 from taskiq.scheduler.scheduled_task import ScheduledTask
 from taskiq.scheduler.scheduler import TaskiqScheduler
+from source_driver import CallableObj, deliver     # the C16 helpers: how a plain def hands an awaitable back
 from vloop import VLoop
 
 EP = dt.datetime(1970, 1, 1, tzinfo=dt.timezone.utc)
@@ -62,6 +64,7 @@ class St:
     attempts = None
     src_index = None
     by_task = None
+    started = None
 
 
 def now_us():
@@ -163,9 +166,10 @@ class Broker(AsyncBroker):
     async def kick(self, message):
         cur = CUR.get()
         i, sid, n = cur if cur else (-1, -1, -1)
-        rec = ["kick", now_us(), i, sid, n, message.labels.get("schedule_id"), message.task_name, None]
+        rec = ["kick", now_us(), i, sid, n, message.labels.get("schedule_id"), message.task_name, None, None]
         St.log.append(rec)
         await asyncio.sleep(self.klat.get("%d:%d:%d" % (i, sid, n), 1) / 1_000_000)
+        rec[8] = now_us()                  # the instant at which kick() returns / raises
         if (i, sid, n) in self.kfail:
             rec[7] = False
             raise Inject("kick")
@@ -258,6 +262,73 @@ class Common:
         if [k, self.idx] in self.case.get("lfail", []):
             St.log.append(("list_fail", now_us(), self.idx, k))
             raise Inject("listing")
+
+    def _pre(self, task):
+        """pre_send of a source that overrides it (`cb.pre`): observed, then the inherited one"""
+        St.log.append(("pre", now_us(), self.idx, sid_of(task), attempt_now()))
+        return super().pre_send(task)
+
+
+# ------------------------------------------------------------------ how a source's callbacks are WRITTEN (`cb` of a source)
+# Without `cb` a source is what it always was here: `async def get_schedules`, inherited pre_send, post_send a plain def that
+# does its work.  With it, get_schedules / pre_send / post_send do the SAME work at the same virtual instants but are written
+# the way `cb.list` / `cb.pre` / `cb.post` say: sync = plain def doing the work, async = `async def`, every other style a
+# plain def that RETURNS an awaitable - coro = a coroutine object, task / future / awaitobj (object with __await__ only: the
+# work runs when it is awaited - a lazy ORM query) / gencoro (generator-based) / gather / shield as in source_driver.deliver,
+# done_future = a Future already holding the outcome - and are found by the scheduler where `cb.bind` says: methods of the
+# class, or attributes set on the instance AFTER the scheduler was built (bound method / callable object / functools.partial).
+def hand_back(style, do):
+    if style == "sync":
+        return do()
+    if style == "done_future":
+        fut = asyncio.get_running_loop().create_future()
+        try:
+            fut.set_result(do())
+        except Exception as e:  # noqa: BLE001 - handed over through the future
+            fut.set_exception(e)
+        return fut
+
+    async def work():
+        return do()
+
+    return deliver("async" if style == "coro" else style, work, St.started)
+
+
+def written(style, do):
+    """the function (self, task) that does `do(self, task)` in the given style"""
+    if style == "sync":
+        return do
+    if style == "async":
+        async def cb(self, task):
+            return do(self, task)
+    else:
+        def cb(self, task):
+            return hand_back(style, lambda: do(self, task))
+    return cb
+
+
+def styled(base, cb):
+    """(subclass of the driver source `base` written as `cb` says, the late-bound attributes {name: function (self, task)})"""
+    ls, bind = cb.get("list", "async"), cb.get("bind", "class")
+    ns, fns = {}, {}
+    if ls != "async":
+        def get_schedules(self):
+            return deliver("async" if ls == "coro" else ls, lambda: base.get_schedules(self), St.started)
+        ns["get_schedules"] = get_schedules
+    if cb.get("pre"):
+        fns["pre_send"] = written(cb["pre"], base._pre)
+    if cb.get("post", "sync") != "sync" or bind != "class":
+        fns["post_send"] = written(cb.get("post", "sync"), base.post_send)
+    if bind == "class":
+        ns.update(fns)
+        fns = {}
+    return type(base.__name__ + "Written", (base,), ns), fns
+
+
+def late_bind(src, fns, bind):
+    for name, fn in fns.items():
+        setattr(src, name, types.MethodType(fn, src) if bind == "instance" else functools.partial(fn, src) if bind == "partial"
+                else CallableObj(types.MethodType(fn, src)))
 
 
 class Scripted(Common, ScheduleSource):
@@ -365,14 +436,19 @@ class Lab(Common, LabelScheduleSource):
 def run_case(case, opts):
     loop = XLoop()
     asyncio.set_event_loop(loop)
-    St.loop, St.base, St.log, St.attempts, St.src_index = loop, case["start"], [], {}, {}
+    loop.set_exception_handler(lambda *_: None)      # a future nobody waited for is an observation, not noise
+    St.loop, St.base, St.log, St.attempts, St.src_index, St.started = loop, case["start"], [], {}, {}, []
     St.by_task = {e["task"]: e["sid"] for spec in case["sources"] for e in spec["entries"]
                   if (e.get("pay") or {}).get("carrier") == "task"}
     AsyncBroker.global_task_registry.clear()
     broker = Broker(case)
-    sources, script = [], []
+    sources, script, late = [], [], []
     for i, spec in enumerate(case["sources"]):
-        src = Lab(i, spec, case, broker) if spec["kind"] == "label" else Scripted(i, spec, case)
+        cls, fns = (Lab if spec["kind"] == "label" else Scripted), {}
+        if spec.get("cb"):
+            cls, fns = styled(cls, spec["cb"])
+        src = cls(i, spec, case, broker) if spec["kind"] == "label" else cls(i, spec, case)
+        late.append((src, fns, (spec.get("cb") or {}).get("bind")))
         St.src_index[id(src)] = i
         sources.append(src)
         for e in spec["entries"]:
@@ -386,6 +462,8 @@ def run_case(case, opts):
             src.add_noise()
     script.sort(key=lambda x: (x[0], x[1]))
     sch = TaskiqScheduler(broker, sources)
+    for x in late:
+        late_bind(*x)
     dead = {}
 
     async def scripter():
@@ -423,7 +501,7 @@ def assemble(case, log, dead):
     """group the event log into polls: a poll ends with the loop's sleep"""
     polls, anomalies = [], []
     cur = None
-    kicks, posts = [], []
+    kicks, posts, pres = [], [], []
 
     def fresh():
         return dict(calls={}, listed={}, failed=set(), delays={}, spawns=[])
@@ -447,6 +525,8 @@ def assemble(case, log, dead):
             kicks.append(ev)
         elif kind == "post":
             posts.append([ev[1], ev[2], ev[3], ev[4], sorted(set(ev[5]))])     # instant, source, entry, attempt, triggers removed
+        elif kind == "pre":
+            pres.append([ev[1], ev[2], ev[3], ev[4]])                              # instant, source, entry, attempt
         elif kind == "sleep":
             polls.append(close(case, cur, ev, anomalies))
             cur = fresh()
@@ -454,7 +534,7 @@ def assemble(case, log, dead):
     if cur["calls"] or cur["listed"] or cur["spawns"]:
         tail = dict(calls=sorted(cur["calls"].items()), spawns=cur["spawns"])
     return dict(polls=polls, tail=tail, anomalies=anomalies, dead=dead,
-                kicks=[[k[2], k[3], k[4], k[1], k[7], k[5], k[6]] for k in kicks], posts=posts)
+                kicks=[[k[2], k[3], k[4], k[1], k[7], k[5], k[6], k[8]] for k in kicks], posts=posts, pres=pres)
 
 
 def close(case, cur, sleep_ev, anomalies):
